@@ -187,7 +187,7 @@ CORE = {
 GROUP = {'C19': 'clock', 'C11': 'store', 'C12': 'store', 'C17': 'store', 'C13': 'multi', 'C15': 'multi'}
 
 # retention, admission and the quiescence rule also hold for child processes and side-by-side processes
-ALSO = {'C17': ['multi'], 'C01': ['multi'], 'C05': ['multi'], 'C03': ['multi']}
+ALSO = {'C17': ['multi'], 'C01': ['multi'], 'C05': ['multi'], 'C03': ['multi'], 'C04': ['loops']}
 
 TIERS = {
     # mc: list of (family, client action budget); rand: list of (family, runs, shards)
@@ -210,6 +210,8 @@ TIERS = {
                                     ('multi', 150, 1, ['--tops', '3', '--budget', '1', '--cap', '1']),
                                     ('multi', 1500, 3, ['--natural'])],
                              rand=[], explore=[], rand_budget=0, rand_pact=0, nat_runs=0),
+                  # backward `next` jumps: second instances of nodes (few short runs: OBSERVE is slow on them)
+                  loops=dict(rand=[('loops', 16, 4, ['--steps', '36'])], explore=[], rand_budget=1, rand_pact=0.1, nat_runs=0),
                   explore=[('handseq', 2, 10, 2)],      # (family, client budget, processes, files per process)
                   rand=[('hand', 600, 2), ('core6', 1800, 4)], rand_budget=4, rand_pact=0.35,
                   nat_family='hand+core6', nat_runs=1000, nat_shards=2),
@@ -231,6 +233,7 @@ TIERS = {
                                        ('multi', 2000, 2, ['--tops', '3', '--budget', '2', '--cap', '2', '--nokeep']),
                                        ('multi', 30000, 8, ['--natural'])],
                                 rand=[], explore=[], rand_budget=0, rand_pact=0, nat_runs=0),
+                     loops=dict(rand=[('loops', 120, 12, ['--steps', '48'])], explore=[], rand_budget=2, rand_pact=0.15, nat_runs=0),
                      explore=[('handseq', 3, 14, 4), ('hand', 1, 14, 4), ('core6', 1, 8, 2)],
                      rand=[('hand', 12000, 4), ('core7+branchy', 40000, 10)], rand_budget=5,
                      rand_pact=0.35, nat_family='hand+core7', nat_runs=20000, nat_shards=4),
